@@ -558,4 +558,29 @@ theorem runS_head (dec : Dec) (v : Bytes) (n : Nat) :
           simp only
           rw [hm]; rfl
 
+/-- One step of the run, spelled out: the layer is appended and the decoder selected by its tail
+    continues on its payload. -/
+theorem runS_next (fuel : Nat) (dec : Dec) (v : Bytes) (acc : RunOut) (s : StepS) (l : AnyLayer)
+    (d' : Dec) (hs : stepS dec v = some s) (hl : s.layer = some l) (hne : s.rest.length ≠ 0)
+    (hr : resolveS s.beh.tail s.rest = some d') :
+    runS (fuel + 1) dec v acc =
+      runS fuel d' s.rest { acc with acts := acc.acts ++ s.beh.acts, layers := acc.layers ++ [l] } := by
+  conv => lhs; unfold runS
+  simp only [hs, hl, hne, if_false, hr]
+
+/-- A successful decoder call contributes its layer right behind the layers already there. -/
+theorem runS_step_layers (fuel : Nat) (dec : Dec) (v : Bytes) (acc : RunOut) (s : StepS) (l : AnyLayer)
+    (hs : stepS dec v = some s) (hl : s.layer = some l) :
+    ∃ more, (runS (fuel + 1) dec v acc).layers = acc.layers ++ l :: more := by
+  unfold runS
+  simp only [hs, hl]
+  split
+  · exact ⟨[], rfl⟩
+  · cases resolveS s.beh.tail s.rest with
+    | none => exact ⟨[], rfl⟩
+    | some d' =>
+      obtain ⟨more, hm⟩ := runS_prefix fuel d' s.rest
+        { layers := acc.layers ++ [l], acts := acc.acts ++ s.beh.acts, end_ := acc.end_ }
+      exact ⟨more, by simp only [hm, List.append_assoc, List.singleton_append]⟩
+
 end Gp.Ppp
